@@ -1,0 +1,56 @@
+//go:build verif
+
+package lsputil
+
+// Contracts for the govc verification-condition generator (/verif/DESIGN.md section 3.4).
+// This file is compiled only with the build tag "verif"; every contract line starts with //@.
+
+//@ func UTF16OffsetToByteOffset
+//@   props C01 C06
+//@   ensures [nonneg] result >= 0
+//@   ensures [valid_bnd] vld(s) ==> bnd(s, result) && result <= len(s)
+//@   ensures [valid_reach] vld(s) ==> u16(s, result) >= utf16Offset || result == len(s)
+//@   ensures [valid_tight] vld(s) && utf16Offset >= 0 ==> u16(s, result) <= utf16Offset + 1
+//@   loop 1 invariant 0 <= iterpos1 && iterpos1 <= len(s) && bnd(s, iterpos1) && byteOffset >= 0
+//@   loop 1 invariant vld(s) ==> byteOffset == iterpos1
+//@   loop 1 invariant utf16Count == u16(s, iterpos1)
+//@   loop 1 invariant utf16Offset >= 0 && iterpos1 > 0 ==> utf16Count <= utf16Offset + 1
+
+//@ func UTF16Len
+//@   props C01 C06
+//@   effects none
+//@   ensures [spec] result == u16(s, len(s))
+//@   ensures [nonneg] result >= 0
+//@   loop 1 invariant 0 <= iterpos1 && iterpos1 <= len(s) && bnd(s, iterpos1) && count == u16(s, iterpos1) && count >= 0
+
+//@ func ByteOffsetToUTF16
+//@   props C01 C06
+//@   ensures [nonneg] result >= 0
+//@   loop 1 invariant 0 <= iterpos1 && iterpos1 <= len(s) && bnd(s, iterpos1) && utf16Count == u16(s, iterpos1) && utf16Count >= 0
+
+//@ pred MapInv(m) := m != nil && len(m.lines) == NL(m.content) && len(m.lineStarts) == len(m.lines) && (forall k int :: 0 <= k && k < len(m.lines) ==> m.lines[k] == substr(m.content, LS(m.content, k), LE(m.content, k)) && m.lineStarts[k] == LS(m.content, k))
+
+//@ func NewPositionMapper
+//@   props C01 C06
+//@   ensures [inv] MapInv(result) && result.content == content && fresh(result)
+//@   loop 1 invariant m != nil && fresh(m) && m.content == content && len(m.lines) == NL(content) && len(m.lineStarts) == len(m.lines)
+//@   loop 1 invariant forall k int :: 0 <= k && k < len(m.lines) ==> m.lines[k] == substr(content, LS(content, k), LE(content, k))
+//@   loop 1 invariant 0 - 1 <= rangeindex && rangeindex <= len(m.lines) - 1
+//@   loop 1 invariant offset == ite(rangeindex + 1 < NL(content), LS(content, rangeindex + 1), len(content) + 1)
+//@   loop 1 invariant forall k int :: 0 <= k && k <= rangeindex ==> m.lineStarts[k] == LS(content, k)
+//@   loop 1 decreases len(m.lines) - rangeindex
+
+//@ func (*PositionMapper).LSPToByte
+//@   props C01 C06
+//@   requires MapInv(m)
+//@   ensures [nonneg] result >= 0
+//@   ensures [line_past_end] pos.Line >= len(m.lines) ==> result == len(m.content)
+//@   ensures [valid_in_line] pos.Line < len(m.lines) && vld(m.lines[pos.Line]) ==> LS(m.content, pos.Line) <= result && result <= LE(m.content, pos.Line)
+//@   ensures [C01:crlf_clamp] pos.Line < len(m.lines) && vld(m.lines[pos.Line]) ==> result <= LEc(m.content, pos.Line)
+
+//@ pred LEc(s, k) := ite(LE(s, k) > LS(s, k) && s[LE(s, k) - 1] == '\r', LE(s, k) - 1, LE(s, k))
+
+//@ func (*PositionMapper).ApplyChange
+//@   props C01 C06
+//@   requires MapInv(m)
+//@   ensures [total] true
